@@ -83,6 +83,12 @@ class LifeSuite(cx.CtxSuiteBase):
                     yield {"prog": top, "ka": ka, "roe": roe, "faults": [rng.random() < 0.3 for _ in range(12)], "hook": rng.randint(1, 31)}
                     if not ka:
                         yield {"prog": p, "ka": ka, "roe": roe, "faults": [rng.random() < 0.2 for _ in range(8)]}
+                    # the same Context object entered twice in a row, the first exit possibly faulting (caught): nothing
+                    # may survive the second outermost exit either
+                    if rng.random() < 0.35:
+                        two = ["seq", ["try", ["ctx", p]], ["ctx", rng.choice(progs)]]
+                        yield {"prog": two, "ka": ka, "roe": roe, "faults": [rng.random() < 0.35 for _ in range(14)], "multi_ctx": True}
+                        yield {"prog": two, "ka": True, "roe": roe, "faults": [False] * rng.randint(1, 5) + [True], "multi_ctx": True}
 
     def oracle(self, case, obs):
         fails = []
@@ -131,7 +137,7 @@ class LifeSuite(cx.CtxSuiteBase):
         for k, n in inits.items():
             if downs.get(k, 0) != 1:
                 fails.append(f"class {k[0]} instance {k[1]} was initialised but torn down {downs.get(k, 0)} times")
-        if case["prog"][0] == "ctx":
+        if case["prog"][0] == "ctx" or case.get("multi_ctx"):
             if live or any(alive_end):
                 fails.append(f"alive after the outermost context was left: live by trace {live}, managers alive {alive_end}")
         # at the outermost exit dependants are torn down before the machines they were built from:
